@@ -32,8 +32,8 @@ theorem handle_acao (bt : Built) (q : Request) :
     ((handle bt q).acao = (simpleAcao bt.cfg (allowOrigin bt (toLower q.origin))).1 ∧
      (handle bt q).acac = (simpleAcao bt.cfg (allowOrigin bt (toLower q.origin))).2) := by
   unfold handle
-  by_cases h1 : toLower q.origin = [] <;> by_cases h2 : q.method = OPTIONS <;>
-    by_cases h3 : q.acrMethod = [] <;> simp [h1, h2, h3]
+  by_cases h0 : q.skip = true <;> by_cases h1 : toLower q.origin = [] <;> by_cases h2 : q.method = OPTIONS <;>
+    by_cases h3 : q.acrMethod = [] <;> simp [h0, h1, h2, h3]
 
 /-- clause 1 for the model -/
 theorem acao_only_if_allowed (bt : Built) (q : Request) : acaoOK bt q (handle bt q) = true := by
@@ -62,28 +62,35 @@ theorem never_star_with_credentials (bt : Built) (q : Request) : credsOK bt (han
       · have := h2 hh; simp [h1, this]
 
 /-- clause 3 for the model -/
-theorem vary_origin_when_varies (bt : Built) (q : Request) : varyOK bt (handle bt q) = true := by
+theorem vary_origin_when_varies (bt : Built) (q : Request) : varyOK bt q (handle bt q) = true := by
   unfold varyOK handle
-  cases hA : bt.allowAll <;> simp
+  cases hA : bt.allowAll <;> cases hs : q.skip <;> simp
   repeat' split
   all_goals simp [vOrigin, vACRM, vACRH, vACRPN]
+
+/-- clause 0 for the model -/
+theorem next_skips_middleware (bt : Built) (q : Request) : skipOK q (handle bt q) = true := by
+  unfold skipOK handle
+  cases hs : q.skip <;> simp
 
 /-- clause 4 for the model -/
 theorem preflight_204_configured (bt : Built) (q : Request) : preflightOK bt q (handle bt q) = true := by
   unfold preflightOK isPreflight handle
+  by_cases h0 : q.skip = true
+  · simp [h0]
   by_cases h1 : toLower q.origin = []
-  · simp [h1]
+  · simp [h0, h1]
   · by_cases h2 : q.method = OPTIONS
     · by_cases h3 : q.acrMethod = []
-      · simp [h1, h2, h3]
-      · simp [h1, h2, h3]
-    · simp [h1, h2]
+      · simp [h0, h1, h2, h3]
+      · simp [h0, h1, h2, h3]
+    · simp [h0, h1, h2]
 
 /-- **Main theorem.** The handler meets every clause of the property, for every built
     configuration (any origin lists, any allow function) and every request. -/
 theorem handle_meets_spec (bt : Built) (q : Request) : specViolation bt q (handle bt q) = none := by
   unfold specViolation
-  simp [acao_only_if_allowed, never_star_with_credentials, vary_origin_when_varies, preflight_204_configured]
+  simp [next_skips_middleware, acao_only_if_allowed, never_star_with_credentials, vary_origin_when_varies, preflight_204_configured]
 
 /-- A configuration with credentials and a wildcard is refused by the constructor. -/
 theorem buildCore_refuses_star_with_credentials (cfg : Config) (bt : Built)
